@@ -38,11 +38,12 @@ class Run(object):
         self.blocks = []
 
 
-def run(F, args, mem_init=None, max_steps=200000, enter=None, extern=None, keep=None, _shared=None, _depth=0):
+def run(F, args, mem_init=None, max_steps=200000, enter=None, extern=None, keep=None, unknown_dir=None, _shared=None, _depth=0):
     """args: list of values per parameter.  mem_init(tag, off, size) -> int | None for loads from caller objects.
     enter(callee name) -> Function to interpret in place (same memory, same event list) or None;
     extern(callee name, argument values) -> modelled return value of a call that is not entered (or None);
-    keep(callee name) -> True when the call is taken not to write any scalar the interpreter tracks."""
+    keep(callee name) -> True when the call is taken not to write any scalar the interpreter tracks;
+    unknown_dir: None = stop at a branch on an undetermined value; 0 / 1 = take every such branch that way."""
     env = {}
     if _shared is None:
         mem = {}
@@ -255,7 +256,8 @@ def run(F, args, mem_init=None, max_steps=200000, enter=None, extern=None, keep=
                         n = I.raw.get("nargs", len(o))
                         G = enter(cal) if enter is not None else None
                         if G is not None and _depth < 6:
-                            sub = run(G, o[:n], mem_init, max_steps, enter, extern, keep, (mem, res), _depth + 1)
+                            sub = run(G, o[:n], mem_init, max_steps, enter, extern, keep, unknown_dir, (mem, res), _depth + 1)
+                            res.unknown_branches = getattr(res, 'unknown_branches', 0) + getattr(sub, 'unknown_branches', 0)
                             res.steps = sub.steps
                             r = sub.ret
                             env[I.id] = r
@@ -282,7 +284,12 @@ def run(F, args, mem_init=None, max_steps=200000, enter=None, extern=None, keep=
                 if I.raw.get("cond"):
                     c = o[0]
                     if c is None or isinstance(c, tuple):
-                        raise Unknown("branch at %s depends on a value the skeleton does not determine" % I.loc())
+                        if unknown_dir is None:
+                            raise Unknown("branch at %s depends on a value the skeleton does not determine" % I.loc())
+                        # a branch on something that is not bookkeeping (the alignment of a pointer): taken the way the
+                        # caller asks; callers run both ways and demand the same of both
+                        res.unknown_branches = getattr(res, "unknown_branches", 0) + 1
+                        c = unknown_dir
                     nxt = I.raw["succ"][0] if c else I.raw["succ"][1]
                 else:
                     nxt = I.raw["succ"][0]
